@@ -1,0 +1,21 @@
+//go:build !verif
+// +build !verif
+
+package tengo
+
+import "github.com/d5/tengo/v2/parser"
+
+// Verification hooks (see verif_hooks.go). With the "verif" build tag off
+// these are empty and are inlined away by the compiler.
+
+func verifProbe(_ *VM) {}
+
+func verifKeepDeadCode() bool { return false }
+
+func verifOptimized(
+	_ []byte, _ map[int]int, _ []byte,
+	_, _ map[int]parser.Pos, _ bool,
+) {
+}
+
+func verifYield(_ string) {}
